@@ -102,6 +102,14 @@ func labelUniverse(cs *core.Case, u *core.Universe) {
 			break
 		}
 	}
+	for c := 0; c < u.N(); c++ {
+		if u.Spec(c).Size > 65535 {
+			cs.Label("component larger than 64 KiB")
+		}
+	}
+	if u.FullRes {
+		cs.Label("resource registry full")
+	}
 }
 
 func runSimProp(t *testing.T, p *simProp) {
@@ -118,8 +126,8 @@ func runSimProp(t *testing.T, p *simProp) {
 		if thorough {
 			// deeper tier: larger universes (the driver also doubles the average history length)
 			p.MaxPlain += 3
-			if p.MaxPlain > len(core.PlainPool) {
-				p.MaxPlain = len(core.PlainPool)
+			if p.MaxPlain > core.HugePlain {
+				p.MaxPlain = core.HugePlain
 			}
 			if p.MaxRel > 0 && p.MaxRel < len(core.RelPool) {
 				p.MaxRel++
